@@ -64,6 +64,11 @@ class Post:
     def __repr__(s): return "Post(%s)" % s.name
 
 
+class PDict(dict):
+    """dict with an ownership tag (module-level constants are 'global')"""
+    owner = 'fresh'; tag = None
+
+
 class Vec:
     """small numpy array of terms (1-d)"""
     __slots__ = ("xs",)
@@ -182,17 +187,32 @@ class Exec:
         path = env.get('__path__')
         if path is not None:
             if (path, name) in s.src.funcs: return Fn('func', s.src.funcs[(path, name)], name=name)
-            if (path, name) in s.src.consts: return s.eval(s.src.consts[(path, name)], {'__path__': path})
+            if (path, name) in s.src.consts: return s.module_const(path, name)
         if name in s.src.classes: return Fn('class', name=name)
         if name in s.src.gfuncs:
             f = s.src.func(name)
             return Fn('func', f, name=name)
         if name in s.src.gconsts and len(s.src.gconsts[name]) == 1:
             p, v = s.src.gconsts[name][0]
-            return s.eval(v, {'__path__': p})
+            return s.module_const(p, name)
         if name in BUILTINS: return Fn('builtin', name=name, py=BUILTINS[name])
         if name in ('numpy', 'optimize', 'pandas', 'joblib', 'json', 'datetime', 'attr', 'typing', 'Path'): return ModRef(name)
         raise Unsupported("name %s" % name, node, path)
+
+    def module_const(s, path, name):
+        """module-level constant; mutable ones (dict/list/set displays) are ONE shared object owned by the module ('global'):
+        a write to it is hidden state"""
+        node = s.src.consts[(path, name)]
+        if isinstance(node, (ast.Dict, ast.List, ast.Set, ast.ListComp, ast.DictComp)):
+            cache = s.__dict__.setdefault('_gconst', {})
+            if (path, name) not in cache:
+                v = s.eval(node, {'__path__': path})
+                if isinstance(v, dict):
+                    d = PDict(v); d.owner = 'global'; d.tag = "module constant %s" % name; v = d
+                elif isinstance(v, PList): v.owner = 'global'; v.tag = "module constant %s" % name
+                cache[(path, name)] = v
+            return cache[(path, name)]
+        return s.eval(node, {'__path__': path})
 
     # ------------------------------------------------------------------ calls
     def bind(s, fdef, args, kwargs, self_obj=None, cls=None):
@@ -255,16 +275,22 @@ class Exec:
             raise Unsupported("constructor of non-attrs class %s" % cls)
         fields = s.src.attrs_fields(cls)
         path = s.src.classes[cls][0]
-        names = [f[0] for f in fields]
-        if len(args) > len(fields): raise Raised('TypeError', "%s: too many arguments" % cls)
+        init_fields = [f for f in fields if f[4] != 'noinit']
+        names = [f[0].lstrip('_') for f in init_fields]
+        if len(args) > len(init_fields): raise Raised('TypeError', "%s: too many arguments" % cls)
         for k in kwargs:
             if k not in names: raise Raised('TypeError', "%s: unexpected keyword %s" % (cls, k))
         vals = {}
-        for i, (name, d, v, c, has) in enumerate(fields):
-            if i < len(args): x = args[i]
-            elif name in kwargs: x = kwargs[name]
-            elif has: x = s.eval(d, {'__path__': path})
-            else: raise Raised('TypeError', "%s: missing %s" % (cls, name))
+        pos = 0
+        for (name, d, v, c, has) in fields:
+            if has == 'noinit':
+                x = s.eval(d, {'__path__': path}) if d is not None else None
+            else:
+                if pos < len(args): x = args[pos]
+                elif name.lstrip('_') in kwargs: x = kwargs[name.lstrip('_')]
+                elif has: x = s.eval(d, {'__path__': path})
+                else: raise Raised('TypeError', "%s: missing %s" % (cls, name))
+                pos += 1
             if c is not None: x = s.apply(s.eval(c, {'__path__': path}), [x], {})
             vals[name] = x
         o = Obj(cls, vals)
@@ -380,6 +406,7 @@ class Exec:
             if s.while_cut is not None: return s.while_cut(s, st, env)
             raise Unsupported("while loop without a cut/invariant", st, env.get('__path__'))
         if isinstance(st, (ast.Import, ast.ImportFrom)): return
+        if isinstance(st, (ast.Global, ast.Nonlocal)): raise Unsupported("global/nonlocal statement (hidden state)", st, env.get('__path__'))
         raise Unsupported("statement %s" % type(st).__name__, st, env.get('__path__'))
 
     def assign(s, t, v, env):
